@@ -8,126 +8,188 @@ open PMV PMV.NpIndex PMV.Index
 
 /-! ### NumPy's assignment kernel: update, frame, read-back -/
 
-/-- frame: an element no selection coordinate points at keeps its value -/
-theorem npAssign_frame {α : Type} (s : Sel) (a v : Index → α) (x : Index)
-    (h : ∀ o ∈ indices s.shape, s.src o ≠ x) : npAssign s a v x = a x := by
+/-- frame: an element no KEPT selection coordinate points at keeps its value -/
+theorem npAssign_frame {α : Type} (s : Sel) (keep : Index → Bool) (a v : Index → α) (x : Index)
+    (h : ∀ o ∈ indices s.shape, keep o = true → s.src o ≠ x) : npAssign s keep a v x = a x := by
   unfold npAssign
-  have : (indices s.shape).reverse.find? (fun o => s.src o == x) = none := by
+  have : (indices s.shape).reverse.find? (fun o => keep o && s.src o == x) = none := by
     rw [List.find?_eq_none]
     intro o ho
     have := h o (List.mem_reverse.mp ho)
-    simpa using this
+    cases hk : keep o with
+    | false => simp
+    | true => simpa using this hk
   rw [this]
 
-/-- update: a selected element receives the value of ONE of the coordinates that select it -/
-theorem npAssign_update {α : Type} (s : Sel) (a v : Index → α) (x : Index)
-    (h : ∃ o ∈ indices s.shape, s.src o = x) :
-    ∃ o ∈ indices s.shape, s.src o = x ∧ npAssign s a v x = v o := by
+/-- update: a selected element receives the value of ONE of the kept coordinates that select it -/
+theorem npAssign_update {α : Type} (s : Sel) (keep : Index → Bool) (a v : Index → α) (x : Index)
+    (h : ∃ o ∈ indices s.shape, keep o = true ∧ s.src o = x) :
+    ∃ o ∈ indices s.shape, keep o = true ∧ s.src o = x ∧ npAssign s keep a v x = v o := by
   unfold npAssign
-  cases hf : (indices s.shape).reverse.find? (fun o => s.src o == x) with
+  cases hf : (indices s.shape).reverse.find? (fun o => keep o && s.src o == x) with
   | none =>
-    obtain ⟨o, ho, hx⟩ := h
+    obtain ⟨o, ho, hk, hx⟩ := h
     rw [List.find?_eq_none] at hf
     have := hf o (List.mem_reverse.mpr ho)
-    simp [hx] at this
+    simp [hx, hk] at this
   | some o =>
     have hm := List.mem_of_find?_eq_some hf
     have hp := List.find?_some hf
-    exact ⟨o, List.mem_reverse.mp hm, by simpa using hp, rfl⟩
+    simp only [Bool.and_eq_true, beq_iff_eq] at hp
+    exact ⟨o, List.mem_reverse.mp hm, hp.1, hp.2, rfl⟩
 
-/-- read-back for a duplicate-free selection: every selected element holds exactly the value
-    assigned through its coordinate -/
-theorem npAssign_readback {α : Type} (s : Sel) (a v : Index → α) (o : Index)
-    (ho : o ∈ indices s.shape)
-    (inj : ∀ o1 ∈ indices s.shape, ∀ o2 ∈ indices s.shape, s.src o1 = s.src o2 → o1 = o2) :
-    npAssign s a v (s.src o) = v o := by
-  obtain ⟨o', ho', hx, hv⟩ := npAssign_update s a v (s.src o) ⟨o, ho, rfl⟩
-  rw [hv, inj o' ho' o ho hx]
+/-- read-back for a duplicate-free selection: every element selected through a kept coordinate
+    holds exactly the value assigned through that coordinate -/
+theorem npAssign_readback {α : Type} (s : Sel) (keep : Index → Bool) (a v : Index → α) (o : Index)
+    (ho : o ∈ indices s.shape) (hk : keep o = true)
+    (inj : ∀ o1 ∈ indices s.shape, ∀ o2 ∈ indices s.shape, keep o1 = true → keep o2 = true →
+      s.src o1 = s.src o2 → o1 = o2) :
+    npAssign s keep a v (s.src o) = v o := by
+  obtain ⟨o', ho', hk', hx, hv⟩ := npAssign_update s keep a v (s.src o) ⟨o, ho, hk, rfl⟩
+  rw [hv, inj o' ho' o ho hk' hk hx]
 
 /-! ### `__setitem__` (general path) -/
 
-/-- what is laid over the selection: the right-hand side `rv`, except that — when the index has
-    masked / out-of-range entries — flagged coordinates carry the OLD value of the element they
-    point at (antimask selection, indexer.py:196-208) -/
-def laidOver (q : Obj) (p : Prep) (s : Sel) (rv : Index → Int) : Index → Int :=
-  if p.post.any? then fun o => if flagged p o then q.vals (s.src o) else rv o else rv
+/-- the selection coordinates `__setitem__` writes through: all of them, or — when the index has
+    masked / out-of-range elements — those whose index elements are all unmasked and in range -/
+def kept (p : Prep) : Index → Bool :=
+  if p.post.any? then fun o => !flagged p o else fun _ => true
 
-/-- the stages of `setitem` when nothing fails: same shape; the new values are NumPy's assignment
-    of `laidOver` through the prepared index -/
-theorem setitem_vals (q q' : Obj) (indx : List Entry) (rhs : Rhs) (p : Prep) (s : Sel)
+theorem expandMask_bit (shape : Shape) (a b : Mask) (x : Index) :
+    (expandMask shape a b).bit x = a.bit x := by
+  cases a with
+  | all c =>
+    cases b with
+    | all d => simp only [expandMask]; split <;> rfl
+    | arr _ => rfl
+  | arr m => rfl
+
+/-- **the state after a successful assignment**: same shape; values AND mask are NumPy's
+    assignment, through the kept coordinates of the prepared index, of the right-hand side's
+    values and mask (read at `pos o`, the broadcast / relocated position of coordinate `o`) —
+    whatever the representations of the two masks -/
+theorem setitem_state (q q' : Obj) (indx : List Entry) (rhs : Rhs) (p : Prep) (s : Sel)
     (hp : prepIndex q.shape indx = some p) (hs : npIndex q.shape p.pre = some s)
     (hall : p.post.all? = false) (h : setitem q indx rhs = .ok q') :
-    q'.shape = q.shape ∧ ∃ rv : Index → Int, q'.vals = npAssign s q.vals (laidOver q p s rv) := by
+    q'.shape = q.shape ∧ ∃ pos : Index → Index,
+      q'.vals = npAssign s (kept p) q.vals (fun o => rhs.vals (pos o)) ∧
+      ∀ x, q'.mask.bit x = npAssign s (kept p) q.mask.bit (fun o => rhs.mask.bit (pos o)) x := by
   unfold setitem at h
   simp only [hp, hs, hall] at h
   split at h
   · rename_i hc; simp at hc
   · split at h
     · simp at h
-    · split at h
+    · -- the mask: an array after expansion, or both masks the same scalar
+      have hmask : ∀ (keep : Index → Bool) (pos : Index → Index) (x : Index),
+          (match expandMask q.shape q.mask rhs.mask with
+            | .arr m => Mask.arr ⟨q.shape, npAssign s keep m.get (fun o => rhs.mask.bit (pos o))⟩
+            | .all b => Mask.all b).bit x
+          = npAssign s keep q.mask.bit (fun o => rhs.mask.bit (pos o)) x := by
+        intro keep pos x
+        cases q.mask with
+        | arr m => cases rhs.mask <;> rfl
+        | all a =>
+          cases rhs.mask with
+          | arr m' => rfl
+          | all b =>
+            by_cases hab : a = b
+            · subst hab
+              have e : expandMask q.shape (.all a) (.all a) = .all a := by simp [expandMask]
+              rw [e]
+              show a = npAssign s keep (fun _ => a) (fun _ => a) x
+              unfold npAssign
+              cases (indices s.shape).reverse.find? (fun o => keep o && s.src o == x) <;> rfl
+            · have e : expandMask q.shape (.all a) (.all b) = .arr ⟨q.shape, fun _ => a⟩ := by
+                simp [expandMask, hab]
+              rw [e]; rfl
+      split at h
       · rename_i hany
         simp only [Outcome.ok.injEq] at h
         subst h
-        have : p.post.any? = false := by simpa using hany
-        exact ⟨rfl, _, by simp only [laidOver, this]; rfl⟩
+        have hk : kept p = fun _ => true := by
+          have : p.post.any? = false := by simpa using hany
+          simp [kept, this]
+        exact ⟨rfl, _, by rw [hk], fun x => by rw [hk]; exact hmask _ _ x⟩
       · rename_i hany
         simp only [Outcome.ok.injEq] at h
         subst h
-        have : p.post.any? = true := by simpa using hany
-        exact ⟨rfl, _, by simp only [laidOver, this]; rfl⟩
+        have hk : kept p = fun o => !flagged p o := by
+          have : p.post.any? = true := by simpa using hany
+          simp [kept, this]
+        exact ⟨rfl, _, by rw [hk], fun x => by rw [hk]; exact hmask _ _ x⟩
 
-/-- **setitem_frame** (values).  An element that no coordinate of the selection points at keeps its
-    value. -/
+/-- **setitem_frame.**  An element that no kept coordinate of the selection points at — in
+    particular every element selected only through masked or out-of-range index elements — keeps
+    its value AND its mask state. -/
 theorem setitem_frame (q q' : Obj) (indx : List Entry) (rhs : Rhs) (p : Prep) (s : Sel)
     (hp : prepIndex q.shape indx = some p) (hs : npIndex q.shape p.pre = some s)
     (hall : p.post.all? = false) (h : setitem q indx rhs = .ok q') (x : Index)
-    (hx : ∀ o ∈ indices s.shape, s.src o ≠ x) : q'.vals x = q.vals x := by
-  obtain ⟨_, rv, hv⟩ := setitem_vals q q' indx rhs p s hp hs hall h
-  rw [hv]; exact npAssign_frame s _ _ x hx
+    (hx : ∀ o ∈ indices s.shape, kept p o = true → s.src o ≠ x) :
+    q'.vals x = q.vals x ∧ q'.mask.bit x = q.mask.bit x := by
+  obtain ⟨_, pos, hv, hm⟩ := setitem_state q q' indx rhs p s hp hs hall h
+  exact ⟨by rw [hv]; exact npAssign_frame s _ _ _ x hx, by rw [hm]; exact npAssign_frame s _ _ _ x hx⟩
 
-/-- **setitem_update.**  A selected element ends up with what ONE of the coordinates selecting it
-    lays over it: the right-hand side's value there, or — if that coordinate is flagged — its own
-    old value. -/
+/-- **setitem_update.**  An element selected through some kept coordinate ends up with the value
+    and the mask state the right-hand side has at ONE such coordinate (the same one for both). -/
 theorem setitem_update (q q' : Obj) (indx : List Entry) (rhs : Rhs) (p : Prep) (s : Sel)
     (hp : prepIndex q.shape indx = some p) (hs : npIndex q.shape p.pre = some s)
     (hall : p.post.all? = false) (h : setitem q indx rhs = .ok q') (x : Index)
-    (hx : ∃ o ∈ indices s.shape, s.src o = x) :
-    ∃ rv : Index → Int, ∃ o ∈ indices s.shape, s.src o = x ∧ q'.vals x = laidOver q p s rv o := by
-  obtain ⟨_, rv, hv⟩ := setitem_vals q q' indx rhs p s hp hs hall h
-  obtain ⟨o, ho, hs', hval⟩ := npAssign_update s q.vals (laidOver q p s rv) x hx
-  exact ⟨rv, o, ho, hs', by rw [hv, hval]⟩
+    (hx : ∃ o ∈ indices s.shape, kept p o = true ∧ s.src o = x) :
+    ∃ pos : Index → Index, ∃ o ∈ indices s.shape, kept p o = true ∧ s.src o = x ∧
+      q'.vals x = rhs.vals (pos o) ∧ q'.mask.bit x = rhs.mask.bit (pos o) := by
+  obtain ⟨_, pos, hv, hm⟩ := setitem_state q q' indx rhs p s hp hs hall h
+  -- the same (last) writer serves values and mask: both are `find?` of the same predicate
+  have key : ∀ {α : Type} (a v : Index → α), ∀ o,
+      (indices s.shape).reverse.find? (fun o => kept p o && s.src o == x) = some o →
+      npAssign s (kept p) a v x = v o := by
+    intro α a v o ho; unfold npAssign; rw [ho]
+  cases hf : (indices s.shape).reverse.find? (fun o => kept p o && s.src o == x) with
+  | none =>
+    obtain ⟨o, ho, hk, hsx⟩ := hx
+    rw [List.find?_eq_none] at hf
+    have := hf o (List.mem_reverse.mpr ho)
+    simp [hsx, hk] at this
+  | some o =>
+    have hmem := List.mem_of_find?_eq_some hf
+    have hpred := List.find?_some hf
+    simp only [Bool.and_eq_true, beq_iff_eq] at hpred
+    exact ⟨pos, o, List.mem_reverse.mp hmem, hpred.1, hpred.2,
+      by rw [hv]; exact key _ _ o hf, by rw [hm x]; exact key _ _ o hf⟩
 
-/-- **masked_entry_writes_nothing.**  If every coordinate selecting `x` is flagged (masked or out
-    of range), `x` keeps its value; a fully masked index changes nothing at all. -/
+/-- **masked_entry_writes_nothing.**  A fully masked index changes nothing at all; otherwise an
+    element all of whose selecting coordinates are flagged (masked or out of range) keeps value and
+    mask state — even if the index has no "unused" element to park the masked entries on. -/
 theorem masked_entry_writes_nothing (q q' : Obj) (indx : List Entry) (rhs : Rhs) (p : Prep) (s : Sel)
     (hp : prepIndex q.shape indx = some p) (hs : npIndex q.shape p.pre = some s)
     (h : setitem q indx rhs = .ok q') :
     (p.post.all? = true → q' = q) ∧
-    (p.post.all? = false → p.post.any? = true → ∀ x, (∀ o ∈ indices s.shape, s.src o = x → flagged p o = true) →
-      q'.vals x = q.vals x) := by
+    (p.post.all? = false → p.post.any? = true →
+      ∀ x, (∀ o ∈ indices s.shape, s.src o = x → flagged p o = true) →
+        q'.vals x = q.vals x ∧ q'.mask.bit x = q.mask.bit x) := by
   constructor
   · intro hall
     unfold setitem at h
     simp only [hp, hall, if_true, Outcome.ok.injEq] at h
     exact h.symm
   · intro hall hany x hf
-    obtain ⟨_, rv, hv⟩ := setitem_vals q q' indx rhs p s hp hs hall h
-    by_cases hx : ∃ o ∈ indices s.shape, s.src o = x
-    · obtain ⟨o, ho, hs', hval⟩ := npAssign_update s q.vals (laidOver q p s rv) x hx
-      rw [hv, hval]
-      simp only [laidOver, hany, if_true, hf o ho hs', hs']
-    · rw [hv]
-      exact npAssign_frame s _ _ x (fun o ho he => hx ⟨o, ho, he⟩)
+    apply setitem_frame q q' indx rhs p s hp hs hall h x
+    intro o ho hk hsx
+    have := hf o ho hsx
+    simp [kept, hany, this] at hk
 
-/-- **readback** for duplicate-free, unflagged indices: every selected element holds what the
-    right-hand side lays over its coordinate. -/
+/-- **readback** for duplicate-free indices: every element selected through a kept coordinate
+    holds the right-hand side's value and mask state at that coordinate. -/
 theorem readback (q q' : Obj) (indx : List Entry) (rhs : Rhs) (p : Prep) (s : Sel)
     (hp : prepIndex q.shape indx = some p) (hs : npIndex q.shape p.pre = some s)
     (hall : p.post.all? = false) (h : setitem q indx rhs = .ok q')
-    (inj : ∀ o1 ∈ indices s.shape, ∀ o2 ∈ indices s.shape, s.src o1 = s.src o2 → o1 = o2) :
-    ∃ rv : Index → Int, ∀ o ∈ indices s.shape, q'.vals (s.src o) = laidOver q p s rv o := by
-  obtain ⟨_, rv, hv⟩ := setitem_vals q q' indx rhs p s hp hs hall h
-  exact ⟨rv, fun o ho => by rw [hv]; exact npAssign_readback s _ _ o ho inj⟩
+    (inj : ∀ o1 ∈ indices s.shape, ∀ o2 ∈ indices s.shape, kept p o1 = true → kept p o2 = true →
+      s.src o1 = s.src o2 → o1 = o2) :
+    ∃ pos : Index → Index, ∀ o ∈ indices s.shape, kept p o = true →
+      q'.vals (s.src o) = rhs.vals (pos o) ∧ q'.mask.bit (s.src o) = rhs.mask.bit (pos o) := by
+  obtain ⟨_, pos, hv, hm⟩ := setitem_state q q' indx rhs p s hp hs hall h
+  exact ⟨pos, fun o ho hk => ⟨by rw [hv]; exact npAssign_readback s _ _ _ o ho hk inj,
+    by rw [hm]; exact npAssign_readback s _ _ _ o ho hk inj⟩⟩
 
 /-! ### sequences of assignments -/
 
